@@ -1515,7 +1515,7 @@ Proof. vm_compute. reflexivity. Qed.
 
 (* ================= pbkdf2 ================= *)
 
-(* published: RFC 6070 (PBKDF2-HMAC-SHA1), iteration counts 1, 2 and 4096 *)
+(* published: RFC 6070 (PBKDF2-HMAC-SHA1) test vectors 1, 2 and 3 (iteration counts 1, 2, 4096) *)
 Example pbkdf2_sha1_rfc6070_1 :
   pbkdf2_sha1 (str "password") (str "salt") 1 20%nat
   = hex "0c60c80f961f0e71f3a9b524af6012062fe037a6".
@@ -1531,18 +1531,8 @@ Example pbkdf2_sha1_rfc6070_3 :
   = hex "4b007901b765489abead49d926f721d065a429c1".
 Proof. vm_compute. reflexivity. Qed.
 
-(* RFC 6070 inputs 5 and 6 with small iteration counts (outputs from Go) *)
-Example pbkdf2_sha1_rfc6070_4 :
-  pbkdf2_sha1 (str "passwordPASSWORDpassword") (str "saltSALTsaltSALTsaltSALTsaltSALTsalt") 1 25%nat
-  = hex "91b28c9be987f7b2c91a8f3f284136283a0de2bbd1539a44f3".
-Proof. vm_compute. reflexivity. Qed.
-
-Example pbkdf2_sha1_rfc6070_5 :
-  pbkdf2_sha1 (hex "7061737300776f7264") (hex "7361006c74") 2 16%nat
-  = hex "6e6df5e5f1752bbbd40f5531fe2e1d1d".
-Proof. vm_compute. reflexivity. Qed.
-
-(* published: RFC 3962 appendix B (Kerberos AES string-to-key PBKDF2 stage), iteration counts 1, 2, 1200 *)
+(* published: RFC 3962 appendix B (PBKDF2 stage of the Kerberos AES string-to-key):
+   iteration counts 1, 2, 1200 with salt ATHENA.MIT.EDUraeburn, and 5 with salt 0x1234567878563412 *)
 Example pbkdf2_sha1_rfc3962_1 :
   pbkdf2_sha1 (str "password") (str "ATHENA.MIT.EDUraeburn") 1 16%nat
   = hex "cdedb5281bb2f801565a1122b2563515".
@@ -1569,11 +1559,33 @@ Example pbkdf2_sha1_rfc3962_5 :
 Proof. vm_compute. reflexivity. Qed.
 
 Example pbkdf2_sha1_rfc3962_6 :
+  pbkdf2_sha1 (str "password") (hex "1234567878563412") 5 16%nat
+  = hex "d1daa78615f287e6a1c8b120d7062a49".
+Proof. vm_compute. reflexivity. Qed.
+
+Example pbkdf2_sha1_rfc3962_7 :
+  pbkdf2_sha1 (str "password") (hex "1234567878563412") 5 32%nat
+  = hex "d1daa78615f287e6a1c8b120d7062a493f98d203e6be49a6adf4fa574b6e64ee".
+Proof. vm_compute. reflexivity. Qed.
+
+(* inputs of RFC 6070 vectors 5, 6 and of the RFC 3962 64-/65-byte pass phrases, but with small
+   iteration counts (outputs from golang.org/x/crypto/pbkdf2) *)
+Example pbkdf2_sha1_var_1 :
+  pbkdf2_sha1 (str "passwordPASSWORDpassword") (str "saltSALTsaltSALTsaltSALTsaltSALTsalt") 1 25%nat
+  = hex "91b28c9be987f7b2c91a8f3f284136283a0de2bbd1539a44f3".
+Proof. vm_compute. reflexivity. Qed.
+
+Example pbkdf2_sha1_var_2 :
+  pbkdf2_sha1 (hex "7061737300776f7264") (hex "7361006c74") 2 16%nat
+  = hex "6e6df5e5f1752bbbd40f5531fe2e1d1d".
+Proof. vm_compute. reflexivity. Qed.
+
+Example pbkdf2_sha1_var_3 :
   pbkdf2_sha1 (str "XXXXXXXXXXXXXXXXXXXXXXXXXXXXXXXXXXXXXXXXXXXXXXXXXXXXXXXXXXXXXXXX") (str "pass phrase equals block size") 5 32%nat
   = hex "b1e8a6c22bc4435807ac10ccfc59cc760e138a3ad6a160d719e3eae1446b8449".
 Proof. vm_compute. reflexivity. Qed.
 
-Example pbkdf2_sha1_rfc3962_7 :
+Example pbkdf2_sha1_var_4 :
   pbkdf2_sha1 (str "XXXXXXXXXXXXXXXXXXXXXXXXXXXXXXXXXXXXXXXXXXXXXXXXXXXXXXXXXXXXXXXXX") (str "pass phrase exceeds block size") 5 32%nat
   = hex "d99a2823757cac5ed4241d7b9d2995badd77302f2185e14625d26cfe6934ee51".
 Proof. vm_compute. reflexivity. Qed.
